@@ -158,24 +158,17 @@ func yearClass(y int64) string {
 	return "year 0..9999"
 }
 
-func magnitude(n int64) string {
-	if n < 0 {
-		n = -n
-	}
-	if n > 106751 {
-		return "more than 106751 days (beyond the int64-nanosecond range)"
-	}
-	return "at most 106751 days"
-}
-
 const sigRange = "result outside the year range comes back as a date instead of an error"
 
 // wrongSig names the defect class of a wrong arithmetic result (coarse on purpose: one defect, one name).
-func wrongSig(typ, op, kind string, year, days int64) string {
+func wrongSig(typ, op, kind string, year, wantYear, days int64) string {
+	if days < 0 {
+		days = -days
+	}
 	switch {
-	case op == "-" && year < 0:
-		return "subtracting a span from a value with a negative year gives a wrong result"
-	case days > 106751 || days < -106751:
+	case op == "-" && (year < 0 || wantYear < 0):
+		return "subtracting a span gives a wrong result when the operand or the result has a negative year"
+	case days+31 > 106751: // the subtraction route adds the day of month before converting to nanoseconds
 		return "a day span beyond ±106751 days (int64 nanoseconds) gives a wrong result"
 	}
 	return fmt.Sprintf("%s %s %s: wrong result", typ, op, kind)
@@ -228,7 +221,7 @@ func checkDays(r *engine.R, a civil) {
 			case !inRange(want.y):
 				r.Violation(sigRange, fmt.Sprintf("%s: the calendar result is year %d (outside %d..%d) but the operation returned %s", expr, want.y, minYear, maxYear, civilOf(got)), expr)
 			case civilOf(got) != want:
-				r.Violation(wrongSig("Date", op, "days", a.y, n), fmt.Sprintf("%s: expected %s, got %s", expr, want, civilOf(got)), expr)
+				r.Violation(wrongSig("Date", op, "days", a.y, want.y, n), fmt.Sprintf("%s: expected %s, got %s", expr, want, civilOf(got)), expr)
 			default:
 				r.Outcome("days: exact")
 			}
@@ -276,7 +269,7 @@ func checkMonths(r *engine.R, a civil) {
 				r.Violation(sigRange, fmt.Sprintf("%s: the calendar result is year %d (outside %d..%d) but the operation returned %s", expr, ty, minYear, maxYear, g), expr)
 			case a.d <= dim:
 				if g != exact {
-					r.Violation(wrongSig("Date", op, "months (day of month exists in the target month)", a.y, 0), fmt.Sprintf("%s: expected %s, got %s", expr, exact, g), expr)
+					r.Violation(wrongSig("Date", op, "months (day of month exists in the target month)", a.y, ty, 0), fmt.Sprintf("%s: expected %s, got %s", expr, exact, g), expr)
 				} else {
 					r.Outcome("months: exact")
 				}
@@ -287,7 +280,7 @@ func checkMonths(r *engine.R, a civil) {
 				r.Outcome("months: day rolled over into the next month (" + op + ")")
 				r.Count("month_overflow_rolled_over("+op+")", 1)
 			default:
-				r.Violation(wrongSig("Date", op, "months (neither clamped nor rolled over)", a.y, 0), fmt.Sprintf("%s: expected %s or %s, got %s", expr, clamp, roll, g), expr)
+				r.Violation(wrongSig("Date", op, "months (neither clamped nor rolled over)", a.y, ty, 0), fmt.Sprintf("%s: expected %s or %s, got %s", expr, clamp, roll, g), expr)
 			}
 		}
 	}
@@ -507,7 +500,11 @@ func checkDateTimeArith(r *engine.R, a dt) {
 			return
 		}
 		if g := dtOf(got); g != want {
-			r.Violation(wrongSig("DateTime", op, kind, a.c.y, days), fmt.Sprintf("%s: expected %s, got %s", expr, want, g), expr)
+			sig := wrongSig("DateTime", op, kind, a.c.y, want.c.y, days)
+			if g.c == want.c && g.nod == want.nod {
+				sig = "DateTime " + op + " date span: the zone offset of the operand is lost"
+			}
+			r.Violation(sig, fmt.Sprintf("%s: expected %s, got %s", expr, want, g), expr)
 			return
 		}
 		r.Outcome("datetime: exact")
@@ -853,34 +850,35 @@ func checkElk(r *engine.R) {
 			r.Capped("an Elk-level probe did not type-check")
 		case it.kind == "error":
 			if ir.Err == "" {
-				r.Violation("Elk level: "+sigRange, fmt.Sprintf("%s\nexpected an error, printed %q", it.code, got), it.code)
+				r.Violation(sigRange, fmt.Sprintf("Elk level: %s\nexpected an error, printed %q", it.code, got), it.code)
 			} else {
 				r.Outcome("elk: error raised")
 			}
 		case ir.Err != "":
-			r.Violation("Elk level: unexpected error ("+elkShape(it.code)+")", fmt.Sprintf("%s\nexpected %q, got error %s", it.code, it.want, ir.Err), it.code)
+			r.Violation(elkSig(it.code), fmt.Sprintf("Elk level: %s\nexpected %q, got error %s", it.code, it.want, ir.Err), it.code)
 		case got != it.want:
-			r.Violation("Elk level: wrong result ("+elkShape(it.code)+")", fmt.Sprintf("%s\nexpected %q, printed %q", it.code, it.want, got), it.code)
+			r.Violation(elkSig(it.code), fmt.Sprintf("Elk level: %s\nexpected %q, printed %q", it.code, it.want, got), it.code)
 		default:
 			r.Outcome("elk: expected value")
 		}
 	}
 }
 
-func elkShape(code string) string {
+// elkSig files an Elk-level failure under the signature of the same defect at the Go API.
+func elkSig(code string) string {
 	switch {
 	case strings.Contains(code, "Date(-5"):
-		return "parse(to_string) with year < 0"
+		return "round trip fails for year < 0"
 	case strings.Contains(code, "Date(10000"):
-		return "parse(to_string) with year > 9999"
+		return "round trip fails for year > 9999"
 	case strings.Contains(code, "Date.parse"):
-		return "parse(to_string)"
+		return "Date round trip (format %Y-%m-%d, year 0..9999): parse error"
 	case strings.Contains(code, "146097"):
-		return "Date + 146097 days"
+		return wrongSig("Date", "+", "days", 2024, 2424, 146097)
 	case strings.Contains(code, "b - a"):
-		return "a + (b - a)"
+		return "Date a + (b - a) != b (difference has months and days)"
 	}
-	return "Date + days"
+	return "Date + days: wrong result"
 }
 
 // ---------------------------------------------------------------------------------------------------------
